@@ -205,6 +205,13 @@ def check_robust(R, variant, yy, nodata, llas, p, ykind):
             tie_only = bool(np.all(dd <= 1) and np.all(fr[dd > 0] <= 1e-6))
             if tie_only:
                 R.count("cvi_rounding_ties")
+            elif np.all(dd <= 3):
+                # last-ulp differences of the weights are amplified by the conditioning of (W_robust + lambda D'D) when long
+                # outages carry few weighted cells (C01 known-finding regime): excluded when kappa*eps*max|z| reaches 0.05
+                keps = W.cond2(yy.size, np.asarray(rw_t, dtype=float), li) * 2.0 ** -53
+                if keps * float(np.max(np.abs(zt))) >= 0.05:
+                    tie_only = True
+                    R.count("cvi_ill_conditioned_excluded")
         if abs(li - lopt) > 1e-12 * lopt or (li == lopt and not np.array_equal(out_i, band) and not tie_only):
             scale = max(1.0, float(np.max(np.abs(ycl))))
             noise = (1e-9 * scale) ** 2 * w.sum()
